@@ -359,10 +359,20 @@ pub fn gen_proj(rng: &mut Rng, o: &GenOpts) -> Proj {
     let mut shades = vec![];
     for i in 0..rng.range(0, 2) {
         let geom = if rng.chance(1, 2) {
-            PShadeGeom::Rect { x: r2(rng, -5.0, 15.0), y: r2(rng, -10.0, -2.0), z: 0.0, height: r2(rng, 2.0, 8.0), width: r2(rng, 2.0, 8.0), azimuth: *rng.pick(&[0.0, 90.0, 180.0, 45.0]), tilt: 90.0 }
+            PShadeGeom::Rect { x: r2(rng, -5.0, 15.0), y: r2(rng, -10.0, -2.0), z: 0.0, height: r2(rng, 2.0, 8.0), width: r2(rng, 2.0, 8.0), azimuth: *rng.pick(&[0.0, 90.0, 180.0, 45.0]), tilt: *rng.pick(&[90.0, 90.0, 90.0, 0.0, 180.0, 45.0, 135.0]) }
         } else {
             let (x, y, zz, w) = (r2(rng, -5.0, 5.0), r2(rng, -9.0, -2.0), r2(rng, 2.0, 6.0), r2(rng, 2.0, 6.0));
-            PShadeGeom::Verts(vec![[x, y - 1.0, zz], [x, y, zz], [x + w, y, zz], [x + w, y - 1.0, zz]])
+            if rng.chance(1, 3) {
+                // a canopy with twelve corners (vertex names V1 … V12 do not sort numerically as text)
+                let (rx, ry) = (w, 1.5f32);
+                PShadeGeom::Verts((0..12).map(|k| {
+                    let a = -(k as f32) * std::f32::consts::PI / 6.0;
+                    let rr = if k % 2 == 0 { 1.0 } else { 0.7 };
+                    [((x + rx * rr * a.cos()) * 100.0).round() / 100.0, ((y - 3.0 + ry * rr * a.sin()) * 100.0).round() / 100.0, zz]
+                }).collect())
+            } else {
+                PShadeGeom::Verts(vec![[x, y - 1.0, zz], [x, y, zz], [x + w, y, zz], [x + w, y - 1.0, zz]])
+            }
         };
         shades.push(PShade { name: format!("Sombra{:03}", i + 1), geom });
     }
